@@ -12,6 +12,7 @@ import (
 	"runtime"
 	"sort"
 	"strings"
+	"sync"
 	"time"
 
 	"github.com/fatih/color"
@@ -136,7 +137,8 @@ func NewLinter(out io.Writer, opts *LinterOptions) (*Linter, error) {
 
 	var lout io.Writer = io.Discard
 	if opts.LogWriter != nil {
-		lout = opts.LogWriter
+		// Logs are written by goroutines which check the files concurrently
+		lout = &lockedWriter{w: opts.LogWriter}
 	}
 
 	var cfg *Config
@@ -196,6 +198,18 @@ func NewLinter(out io.Writer, opts *LinterOptions) (*Linter, error) {
 
 	l.debug("Create a Linter instance with option %#v", opts)
 	return l, nil
+}
+
+// lockedWriter serializes writes to the underlying writer.
+type lockedWriter struct {
+	mu sync.Mutex
+	w  io.Writer
+}
+
+func (w *lockedWriter) Write(b []byte) (int, error) {
+	w.mu.Lock()
+	defer w.mu.Unlock()
+	return w.w.Write(b)
 }
 
 func (l *Linter) log(args ...interface{}) {
